@@ -285,8 +285,13 @@ def run(cx, rep):
     # ---------------------------------------------------------------- C10.4
     # (shared with C14.7) what the session happens to have loaded is an ambient input too
     rep.rule("C10.4", "no result depends on which modules happen to be loaded already (cache-only lookups)")
-    from rules.c14 import cache_only_lookup_rule
+    from rules.c14 import cache_only_lookup_rule, cached_modules_immutable_rule
     cache_only_lookup_rule(cx, rep, "C10.4")
+    # ---------------------------------------------------------------- C10.5
+    # (shared with C14.8) a module object that changes while it is used makes the second compilation over the same
+    # registered modules differ from the first
+    rep.rule("C10.5", "parsed modules are not changed by compiling them (no interior mutability, read-only comment map)")
+    cached_modules_immutable_rule(cx, rep, "C10.5")
     rep.rule("C10.3", "beff-core holds no process-lifetime mutable state (static / thread_local)")
     core_statics = [s for s in F.statics if s["crate"] == "beff_core"]
     for s in core_statics:
